@@ -10,6 +10,7 @@ import (
 	"strconv"
 	"strings"
 	"sync"
+	"sync/atomic"
 	"time"
 
 	"google.golang.org/grpc/codes"
@@ -17,6 +18,7 @@ import (
 	"google.golang.org/protobuf/proto"
 
 	"github.com/smart-core-os/sc-api/go/types"
+	"github.com/smart-core-os/sc-golang/internal/verifhook"
 	"github.com/smart-core-os/sc-golang/pkg/resource"
 	"github.com/smart-core-os/sc-golang/verifharness/lib"
 )
@@ -48,14 +50,37 @@ type scenario struct {
 	// Inflight: a write that is REFUSED is in flight during every List call of the scenario (and while the unpaged
 	// listing is taken): it is started before the first call, parks inside its WithExpectedCheck callback (no lock is
 	// held there), and is released - the callback then returns an error - after the last call.
+	// With Inflight.Accept the callback ACCEPTS: the write is started after the store ops and parks; while it is
+	// parked (nothing is committed yet) the unpaged listing is taken, the warm-up calls and one complete chain are
+	// made and judged against the contents BEFORE the write; then the callback returns nil, the write completes, and
+	// the listing and all passes are taken again and judged against the contents AFTER it.
 	Inflight *guardedWrite `json:"inflight,omitempty"`
 }
 
-// guardedWrite is a write of the model carrying a WithExpectedCheck option that parks and then refuses.
+// guardedWrite is a write of the model carrying a WithExpectedCheck option that parks and then refuses (or, with
+// Accept, lets the write through).
 type guardedWrite struct {
 	Kind   string `json:"kind"` // update | delete | add (waste: AddWasteRecord)
 	ID     string `json:"id"`
 	Upsert bool   `json:"upsert,omitempty"` // update: resource.WithCreateIfAbsent()
+	Accept bool   `json:"accept,omitempty"` // the expected check returns nil after it was released
+	// Op: instead of a write carrying an expected check, ANY store op of the model (the APIs that take no write
+	// options included: parent AddChild / AddChildTrait / RemoveChildTrait, Create*, Add*), parked by the harness at
+	// the yield point Point of the resource layer (verif build tag) - after its verdict, before it takes the write
+	// lock and commits - and then let through. Treated like an accepted write (Accept is implied).
+	Op    *storeOp `json:"op,omitempty"`
+	Point string   `json:"point,omitempty"` // gau.beforeLock | gau.afterRead | coll.delete.afterRead
+}
+
+// accepting: the write goes through once it is released.
+func (w *guardedWrite) accepting() bool { return w != nil && (w.Accept || w.Op != nil) }
+
+// asOp is the write as a store op (what it does to the contents once it is accepted).
+func (w guardedWrite) asOp() storeOp {
+	if w.Op != nil {
+		return *w.Op
+	}
+	return storeOp{Kind: w.Kind, ID: w.ID, Upsert: w.Upsert}
 }
 
 // storeOp is one call of a creation / update / deletion API of the model.
@@ -66,7 +91,7 @@ type storeOp struct {
 	// update only:
 	MsgID  string `json:"msg_id,omitempty"` // the written message carries THIS id, not ID (APIs that take the id as a separate argument)
 	Upsert bool   `json:"upsert,omitempty"` // resource.WithCreateIfAbsent()
-	Mask   string `json:"mask,omitempty"`   // "" = no update mask, "key" = a mask naming the key field, "nokey" = a mask leaving it out
+	Mask   string `json:"mask,omitempty"`   // "" = no update mask, "key" = a mask naming the key field, "nokey" = a mask leaving it out, "empty" = a non-nil mask with NO paths
 	// delete only: resource.WithAllowMissing(true) / allow_missing
 	AllowMissing bool `json:"allow_missing,omitempty"`
 	// Via: "" = the model's Go API; "rpc" = the trait server's own Create… / Update… / Delete… RPC; "ack" =
@@ -116,6 +141,21 @@ type runResult struct {
 	gen       []string // add ops: the id the code reported
 	wantList  []string // the key fields in Collection.List order (by storage id) according to the set oracle
 	inflight  string   // outcome of the in-flight write: "" none, "parked+refused", "refused" (never reached the callback), …
+	// accepted in-flight write only: what was seen while it was parked (before its commit); coll / wantList / full /
+	// passes above are then those AFTER the write completed
+	pre         *prePhase
+	inflightOp  string // canonical outcome of the accepted in-flight write as a store op ("ok <hex>", "notfound", …)
+	inflightGen string // hooked add op: the id the code reported
+	// hooked op that returned WITHOUT parking: it took effect before the "meanwhile" calls
+	inflightEarly bool
+}
+
+// prePhase: the contents and the List calls made while an accepted write was parked in its expected check.
+type prePhase struct {
+	coll     []string
+	wantList []string
+	full     []string
+	calls    []call // one complete chain
 }
 
 func hexID(s string) string {
@@ -357,6 +397,10 @@ func runOp(inst *instance, op storeOp) (out string, got string) {
 // has returned without ever calling it. finish releases the callback (which then refuses the write) and returns
 // the write's outcome.
 func startInflight(inst *instance, w guardedWrite) (finish func() string, out string, err error) {
+	verdict := status.Error(codes.FailedPrecondition, "refused by the caller's expected check")
+	if w.Accept {
+		verdict = nil
+	}
 	if inst.guarded == nil {
 		return nil, "", fmt.Errorf("the model takes no write options")
 	}
@@ -367,7 +411,7 @@ func startInflight(inst *instance, w guardedWrite) (finish func() string, out st
 	opt := resource.WithExpectedCheck(func(proto.Message) error {
 		once.Do(func() { close(entered) })
 		<-release
-		return status.Error(codes.FailedPrecondition, "refused by the caller's expected check")
+		return verdict
 	})
 	go func() {
 		var handled bool
@@ -380,6 +424,8 @@ func startInflight(inst *instance, w guardedWrite) (finish func() string, out st
 			done <- "unsupported"
 		case e == nil:
 			done <- "accepted"
+		case w.Accept:
+			done <- "refused:" + codeName(e) // the write failed although its check accepts (e.g. NotFound before the check)
 		default:
 			done <- "refused"
 		}
@@ -407,6 +453,56 @@ func startInflight(inst *instance, w guardedWrite) (finish func() string, out st
 	}
 }
 
+// startHooked runs op in its own goroutine with a controller installed at the yield points of the resource layer:
+// that goroutine (and no other) parks the first time it reaches point. finish lets it go on and returns the op's
+// canonical outcome and reported id.
+func startHooked(inst *instance, op storeOp, point string) (finish func() (string, string), parked bool, err error) {
+	entered := make(chan struct{})
+	release := make(chan struct{})
+	type result struct{ out, got string }
+	done := make(chan result, 1)
+	var gid atomic.Int64
+	gid.Store(-2)
+	var once sync.Once
+	verifhook.Set(func(p string) {
+		if p != point || verifhook.GoID() != gid.Load() {
+			return
+		}
+		first := false
+		once.Do(func() { first = true })
+		if first {
+			close(entered)
+			<-release
+		}
+	})
+	go func() {
+		gid.Store(verifhook.GoID())
+		out, got := runOp(inst, op)
+		done <- result{out, got}
+	}()
+	wait := func() (string, string) {
+		defer verifhook.Set(nil)
+		select {
+		case r := <-done:
+			return r.out, r.got
+		case <-time.After(10 * time.Second):
+			return "stuck", ""
+		}
+	}
+	select {
+	case <-entered:
+		return func() (string, string) { close(release); return wait() }, true, nil
+	case r := <-done:
+		verifhook.Set(nil)
+		close(release)
+		return func() (string, string) { return r.out, r.got }, false, nil
+	case <-time.After(10 * time.Second):
+		verifhook.Set(nil)
+		close(release)
+		return nil, false, fmt.Errorf("the hooked write neither reached %s nor returned", point)
+	}
+}
+
 func (sc scenario) run() (res runResult, err error) {
 	r, ok := rpcByName(sc.RPC)
 	if !ok {
@@ -431,19 +527,9 @@ func (sc scenario) run() (res runResult, err error) {
 	res.base = sc.collection()
 	// the harness's own set oracle: storage id (the id as the interceptor maps it) -> key field as last written,
 	// in insertion order
-	norm := icptFn(sc.Icpt)
-	type entry struct{ sid, field string }
-	var entries []entry
+	orc := &oracle{norm: icptFn(sc.Icpt)}
 	for _, id := range res.base {
-		entries = append(entries, entry{norm(id), id})
-	}
-	find := func(id string) int {
-		for i, x := range entries {
-			if x.sid == norm(id) {
-				return i
-			}
-		}
-		return -1
+		orc.entries = append(orc.entries, entry{orc.norm(id), id})
 	}
 	for _, op := range sc.Ops {
 		out, got := runOp(inst, op)
@@ -452,77 +538,18 @@ func (sc scenario) run() (res runResult, err error) {
 		}
 		res.ops = append(res.ops, out)
 		res.gen = append(res.gen, got)
-		switch op.Kind {
-		case "add":
-			id := op.ID
-			if id == "" {
-				id = got // invented by the model; "" when it failed
-				if id == "" {
-					continue
-				}
-			}
-			if find(id) < 0 {
-				entries = append(entries, entry{norm(id), id})
-			}
-		case "ensure":
-			if op.ID == "" {
-				continue
-			}
-			if i := find(op.ID); i < 0 {
-				entries = append(entries, entry{norm(op.ID), op.ID})
-			} else if op.Alt {
-				entries[i].field = op.ID // AddChildTrait writes {Name: name}: an existing child is re-spelled
-			}
-		case "update":
-			// an update never moves an item, whatever id the written message carries; with create-if-absent it
-			// creates the item under ID (the empty id names no item); the key field is always written: the item
-			// now carries the spelling ID
-			if op.ID == "" {
-				continue
-			}
-			if i := find(op.ID); i >= 0 {
-				if strings.HasPrefix(out, "ok") {
-					entries[i].field = op.ID
-				}
-			} else if op.Upsert {
-				entries = append(entries, entry{norm(op.ID), op.ID})
-			}
-		case "delete":
-			if i := find(op.ID); i >= 0 {
-				entries = append(entries[:i:i], entries[i+1:]...)
-			}
-		}
+		orc.apply(op, out, got)
 	}
-	var present []string
-	for _, e := range entries {
-		present = append(present, e.field)
-	}
-	bySid := append([]entry(nil), entries...)
-	sort.SliceStable(bySid, func(i, j int) bool { return bySid[i].sid < bySid[j].sid })
-	for _, e := range bySid {
-		res.wantList = append(res.wantList, e.field)
-	}
-	res.coll = present
-	if sc.Inflight != nil {
-		finish, out, e := startInflight(inst, *sc.Inflight)
-		if e != nil {
-			return res, e
-		}
-		res.inflight = out
-		defer func() {
-			if res.inflight == "parked" {
-				res.inflight = "parked+" + finish()
-			}
-			res.fullAfter = inst.all()
-		}()
-	}
-	res.full = inst.all()
+	res.coll, res.wantList = orc.present(), orc.byStorage()
 	idx := map[string]int{}
-	if r.Variant == "waste" {
-		for i, id := range present {
-			idx[id] = i
+	reindex := func() {
+		if r.Variant == "waste" {
+			for i, id := range res.coll {
+				idx[id] = i
+			}
 		}
 	}
+	reindex()
 	one := func(size int32, tok string, mask []string, hostile bool) (call, bool) {
 		c := call{Size: size, Token: tok, Tok: tokClass(r.Variant, tok), Hostile: hostile, Mask: mask}
 		var resp pageResp
@@ -536,19 +563,10 @@ func (sc scenario) run() (res runResult, err error) {
 		c.Out = canon(r.Variant, idx, resp)
 		return c, true
 	}
-	for _, w := range sc.Warm {
-		c, _ := one(w.Size, w.Token, w.Mask, true)
-		res.warm = append(res.warm, c)
-	}
-	passes := sc.Passes
-	if passes < 1 {
-		passes = 1
-	}
-	budget := len(res.full) + 3
-	for p := 0; p < passes; p++ {
+	chain := func(nfull int) []call {
 		var calls []call
 		tok := sc.Token
-		for i := 0; i < budget; i++ {
+		for i := 0; i < nfull+3; i++ {
 			c, ok := one(sc.Sizes[i%len(sc.Sizes)], tok, sc.Mask, i == 0 && tok != "")
 			calls = append(calls, c)
 			if !ok || c.Resp.Err != nil || c.Resp.Next == "" {
@@ -556,10 +574,187 @@ func (sc scenario) run() (res runResult, err error) {
 			}
 			tok = c.Resp.Next
 		}
-		res.passes = append(res.passes, calls)
+		return calls
+	}
+	warm := func() {
+		for _, w := range sc.Warm {
+			c, _ := one(w.Size, w.Token, w.Mask, true)
+			res.warm = append(res.warm, c)
+		}
+	}
+	accepting := sc.Inflight.accepting()
+	switch {
+	case accepting && sc.Inflight.Op != nil:
+		op := *sc.Inflight.Op
+		finish, parked, e := startHooked(inst, op, sc.Inflight.Point)
+		if e != nil {
+			return res, e
+		}
+		// the op is parked before it takes the write lock (or has already returned): nothing is committed yet.
+		// An op that returned without parking has had its effect: the contents seen "meanwhile" are those after it.
+		var out, got string
+		if !parked {
+			res.inflightEarly = true
+			out, got = finish()
+			orc.apply(op, out, got)
+			res.coll, res.wantList = orc.present(), orc.byStorage()
+			reindex()
+		}
+		pre := &prePhase{coll: res.coll, wantList: res.wantList, full: inst.all()}
+		warm()
+		pre.calls = chain(len(pre.full))
+		res.pre = pre
+		res.inflight = "returned"
+		if parked {
+			out, got = finish()
+			res.inflight = "parked+returned"
+			orc.apply(op, out, got)
+		}
+		if out == "unsupported" {
+			return res, fmt.Errorf("%s has no %q operation", sc.RPC, op.Kind)
+		}
+		res.inflightOp, res.inflightGen = out, got
+		res.coll, res.wantList = orc.present(), orc.byStorage()
+		reindex()
+	case accepting:
+		finish, out, e := startInflight(inst, *sc.Inflight)
+		if e != nil {
+			return res, e
+		}
+		// the write is parked in its expected check (or has already returned): nothing is committed yet
+		pre := &prePhase{coll: res.coll, wantList: res.wantList, full: inst.all()}
+		warm()
+		pre.calls = chain(len(pre.full))
+		res.pre = pre
+		if out == "parked" {
+			out = "parked+" + finish()
+		}
+		res.inflight = out
+		// the write has returned: from here on the contents are fixed again
+		op := sc.Inflight.asOp()
+		switch {
+		case strings.HasSuffix(out, "accepted"):
+			res.inflightOp = "ok " + hexID(op.ID)
+			if op.Kind == "add" {
+				orc.entries = append(orc.entries, entry{orc.norm(op.ID), op.ID}) // waste: AddWasteRecord
+			} else {
+				orc.apply(op, res.inflightOp, op.ID)
+			}
+		case strings.HasSuffix(out, "refused:NotFound"):
+			res.inflightOp = "notfound"
+		default:
+			res.inflightOp = out
+		}
+		res.coll, res.wantList = orc.present(), orc.byStorage()
+		reindex()
+	case sc.Inflight != nil:
+		finish, out, e := startInflight(inst, *sc.Inflight)
+		if e != nil {
+			return res, e
+		}
+		res.inflight = out
+		defer func() {
+			if res.inflight == "parked" {
+				res.inflight = "parked+" + finish()
+			}
+			res.fullAfter = inst.all()
+		}()
+	}
+	res.full = inst.all()
+	if !accepting {
+		warm()
+	}
+	passes := sc.Passes
+	if passes < 1 {
+		passes = 1
+	}
+	for p := 0; p < passes; p++ {
+		res.passes = append(res.passes, chain(len(res.full)))
 	}
 	res.fullAfter = inst.all()
 	return res, nil
+}
+
+type entry struct{ sid, field string }
+
+// oracle is the harness's own idea of the contents: storage id (the id as the interceptor maps it) -> key field as
+// last written, in insertion order.
+type oracle struct {
+	norm    func(string) string
+	entries []entry
+}
+
+func (o *oracle) find(id string) int {
+	for i, x := range o.entries {
+		if x.sid == o.norm(id) {
+			return i
+		}
+	}
+	return -1
+}
+
+// apply: what op does to the contents, given its canonical outcome out and (add ops) the id the code reported.
+func (o *oracle) apply(op storeOp, out, got string) {
+	switch op.Kind {
+	case "add":
+		id := op.ID
+		if id == "" {
+			id = got // invented by the model; "" when it failed
+			if id == "" {
+				return
+			}
+		}
+		if o.find(id) < 0 {
+			o.entries = append(o.entries, entry{o.norm(id), id})
+		}
+	case "ensure":
+		if op.ID == "" {
+			return
+		}
+		if i := o.find(op.ID); i < 0 {
+			o.entries = append(o.entries, entry{o.norm(op.ID), op.ID})
+		} else if op.Alt {
+			o.entries[i].field = op.ID // AddChildTrait writes {Name: name}: an existing child is re-spelled
+		}
+	case "update":
+		// an update never moves an item, whatever id the written message carries; with create-if-absent it
+		// creates the item under ID (the empty id names no item); the key field is always written, whatever the
+		// update mask says (none, with or without the key, no paths at all): the item now carries the spelling ID
+		if op.ID == "" {
+			return
+		}
+		if i := o.find(op.ID); i >= 0 {
+			if strings.HasPrefix(out, "ok") {
+				o.entries[i].field = op.ID
+			}
+		} else if op.Upsert {
+			o.entries = append(o.entries, entry{o.norm(op.ID), op.ID})
+		}
+	case "delete":
+		if i := o.find(op.ID); i >= 0 {
+			o.entries = append(o.entries[:i:i], o.entries[i+1:]...)
+		}
+	}
+}
+
+// present: the key fields in insertion order.
+func (o *oracle) present() []string {
+	var out []string
+	for _, e := range o.entries {
+		out = append(out, e.field)
+	}
+	return out
+}
+
+// byStorage: the key fields in Collection.List order (by storage id).
+func (o *oracle) byStorage() []string {
+	by := append([]entry(nil), o.entries...)
+	sort.SliceStable(by, func(i, j int) bool { return by[i].sid < by[j].sid })
+	var out []string
+	for _, e := range by {
+		out = append(out, e.field)
+	}
+	return out
 }
 
 // modelQ is one request to the Lean model with the real code's answer to compare it with ("" = not compared).
@@ -574,14 +769,14 @@ type modelQ struct {
 // sorts), every store op, the listing, and every List call.
 func (sc scenario) driverLines(variant string, res runResult) []modelQ {
 	var qs []modelQ
-	pageLine := func(c call, where string, i int) modelQ {
+	pageLine := func(n int, c call, where string, i int) modelQ {
 		vis := 1
 		if !maskShowsKey(sc.RPC, c.Mask) {
 			vis = 0
 		}
-		key := fmt.Sprintf("%s|%d|%d|%s|%v", sc.RPC, len(res.coll), c.Size, c.Tok, vis)
+		key := fmt.Sprintf("%s|%d|%d|%s|%v", sc.RPC, n, c.Size, c.Tok, vis)
 		if variant == "waste" {
-			return modelQ{fmt.Sprintf("waste %d %d %s %d", len(res.coll), c.Size, c.Tok, vis), c.Out, key, fmt.Sprintf("%s %d", where, i)}
+			return modelQ{fmt.Sprintf("waste %d %d %s %d", n, c.Size, c.Tok, vis), c.Out, key, fmt.Sprintf("%s %d", where, i)}
 		}
 		return modelQ{fmt.Sprintf("page %s %d %s %d", variant, c.Size, c.Tok, vis), c.Out, key, fmt.Sprintf("%s %d", where, i)}
 	}
@@ -640,6 +835,8 @@ func (sc scenario) driverLines(variant string, res runResult) []modelQ {
 					mk = "k"
 				case "nokey":
 					mk = "x"
+				case "empty":
+					mk = "e"
 				}
 				if sc.RPC == "publication.ListPublications" {
 					// the id is a separate argument: the message's own id travels too
@@ -655,14 +852,47 @@ func (sc scenario) driverLines(variant string, res runResult) []modelQ {
 			qs = append(qs, modelQ{line, res.ops[i], fmt.Sprintf("%s|op|%s|%v|%v|%v|%v|%s|%v|%s|%s", sc.RPC, op.Kind, op.ID == "", op.Alt, op.MsgID != "", op.Upsert, op.Mask, op.AllowMissing, op.Via, strings.SplitN(res.ops[i], " ", 2)[0]), fmt.Sprintf("op %d", i)})
 		}
 		// Collection.List: the ids of the map, sorted
-		qs = append(qs, modelQ{"listing", hexList(res.full), fmt.Sprintf("%s|listing|%d", sc.RPC, len(res.full)), "listing"})
+		if res.pre == nil {
+			qs = append(qs, modelQ{"listing", hexList(res.full), fmt.Sprintf("%s|listing|%d", sc.RPC, len(res.full)), "listing"})
+		} else {
+			qs = append(qs, modelQ{"listing", hexList(res.pre.full), fmt.Sprintf("%s|listing|%d", sc.RPC, len(res.pre.full)), "listing while the accepted write is parked"})
+		}
+	}
+	n := len(res.coll)
+	if res.pre != nil {
+		n = len(res.pre.coll)
 	}
 	for i, c := range res.warm {
-		qs = append(qs, pageLine(c, "warm-up call", i))
+		qs = append(qs, pageLine(n, c, "warm-up call", i))
+	}
+	if res.pre != nil {
+		for i, c := range res.pre.calls {
+			qs = append(qs, pageLine(n, c, "call while the accepted write is parked", i))
+		}
+		n = len(res.coll)
+		if variant != "waste" {
+			// the write commits: the same operation on the model, then Collection.List again
+			w := sc.Inflight
+			var line string
+			up := 0
+			if w.Upsert {
+				up = 1
+			}
+			switch {
+			case w.Kind == "delete":
+				line = "sop delete " + hexID(w.ID) + " 0"
+			case sc.RPC == "publication.ListPublications":
+				line = fmt.Sprintf("sop updi %s %s %d n", hexID(w.ID), hexID(w.ID), up)
+			default:
+				line = fmt.Sprintf("sop updm %s %d n", hexID(w.ID), up)
+			}
+			qs = append(qs, modelQ{line, res.inflightOp, fmt.Sprintf("%s|accepted-write|%s|%v|%s", sc.RPC, w.Kind, w.Upsert, strings.SplitN(res.inflightOp, " ", 2)[0]), "the accepted in-flight write"})
+			qs = append(qs, modelQ{"listing", hexList(res.full), fmt.Sprintf("%s|listing|%d", sc.RPC, len(res.full)), "listing after the accepted write"})
+		}
 	}
 	for p, calls := range res.passes {
 		for i, c := range calls {
-			qs = append(qs, pageLine(c, fmt.Sprintf("pass %d call", p), i))
+			qs = append(qs, pageLine(n, c, fmt.Sprintf("pass %d call", p), i))
 		}
 	}
 	return qs
@@ -686,17 +916,6 @@ func capSize(s int32) int {
 // monitor evaluates the property's statement on the observed calls with an oracle that does not use
 // the Lean model: sorted ids (bytewise) / reversed insertion order, filtered by the decoded token.
 func (sc scenario) monitor(m *lib.Monitor, variant string, res runResult) {
-	coll := res.coll
-	full := res.full
-	var want []string // the listing in its order
-	if variant == "waste" {
-		for i := len(coll) - 1; i >= 0; i-- {
-			want = append(want, coll[i])
-		}
-	} else {
-		want = append([]string(nil), coll...)
-		sort.Strings(want)
-	}
 	pre := "C15/" + sc.RPC + "/"
 	for i, o := range res.ops {
 		if strings.HasPrefix(o, "panic:") {
@@ -704,23 +923,37 @@ func (sc scenario) monitor(m *lib.Monitor, variant string, res runResult) {
 			return
 		}
 	}
-	for _, k := range full {
-		if k == "" {
-			m.Violate(pre+"empty-key", "the public API of the model produced a collection that lists an item with an empty key (a page ending on it mints a token that restarts the listing: endless token chain)", sc, fmt.Sprintf("%q", want), fmt.Sprintf("%q", full))
-			return
+	// the listing in its order
+	order := func(coll []string) []string {
+		var want []string
+		if variant == "waste" {
+			for i := len(coll) - 1; i >= 0; i-- {
+				want = append(want, coll[i])
+			}
+		} else {
+			want = append([]string(nil), coll...)
+			sort.Strings(want)
 		}
+		return want
 	}
-	wantFull := want
-	if variant != "waste" {
-		wantFull = res.wantList // Collection.List: by storage id (the intercepted id), each item in its own spelling
-	}
-	if strings.Join(full, "\x00") != strings.Join(wantFull, "\x00") || len(full) != len(wantFull) {
-		m.Violate(pre+"full-list", "the model's unpaged listing is not the collection in listing order", sc, fmt.Sprintf("%q", wantFull), fmt.Sprintf("%q", full))
-		return
-	}
-	if res.inflight == "parked+accepted" || res.inflight == "accepted" || strings.Contains(res.inflight, "panic") || strings.Contains(res.inflight, "stuck") {
-		m.Violate(pre+"inflight-write", "a write whose expected check refuses it did not end with an error", sc, "refused", res.inflight)
-		return
+	// the unpaged listing: no empty key, and the collection in listing order
+	fullOK := func(full, coll, wantList []string, when string) bool {
+		want := order(coll)
+		for _, k := range full {
+			if k == "" {
+				m.Violate(pre+"empty-key", "the public API of the model produced a collection that lists an item with an empty key (a page ending on it mints a token that restarts the listing: endless token chain)"+when, sc, fmt.Sprintf("%q", want), fmt.Sprintf("%q", full))
+				return false
+			}
+		}
+		wantFull := want
+		if variant != "waste" {
+			wantFull = wantList // Collection.List: by storage id (the intercepted id), each item in its own spelling
+		}
+		if strings.Join(full, "\x00") != strings.Join(wantFull, "\x00") || len(full) != len(wantFull) {
+			m.Violate(pre+"full-list", "the model's unpaged listing is not the collection in listing order"+when, sc, fmt.Sprintf("%q", wantFull), fmt.Sprintf("%q", full))
+			return false
+		}
+		return true
 	}
 	for i, c := range res.warm {
 		if c.Out == "panic" {
@@ -728,6 +961,34 @@ func (sc scenario) monitor(m *lib.Monitor, variant string, res runResult) {
 			return
 		}
 	}
+	if res.pre != nil {
+		// an ACCEPTED write was parked in its expected check: nothing was committed, the contents were those before it
+		if !fullOK(res.pre.full, res.pre.coll, res.pre.wantList, " (taken while an accepted write was parked in its expected check, before its commit)") {
+			return
+		}
+		if !sc.monitorPass(m, variant, order(res.pre.coll), -1, res.pre.calls) {
+			return
+		}
+		if res.inflight == "parked+accepted" || (!strings.HasPrefix(res.inflight, "parked") && !strings.Contains(res.inflight, "panic")) {
+			// accepted, or returned before it ever asked the caller (e.g. NotFound)
+		} else {
+			m.Violate(pre+"inflight-write", "a write whose expected check accepts it did not complete", sc, "accepted", res.inflight)
+			return
+		}
+		if !fullOK(res.full, res.coll, res.wantList, " (taken after a write that was parked in its expected check during earlier List calls had completed: the contents are fixed again)") {
+			return
+		}
+	} else {
+		if !fullOK(res.full, res.coll, res.wantList, "") {
+			return
+		}
+		if res.inflight == "parked+accepted" || res.inflight == "accepted" || strings.Contains(res.inflight, "panic") || strings.Contains(res.inflight, "stuck") {
+			m.Violate(pre+"inflight-write", "a write whose expected check refuses it did not end with an error", sc, "refused", res.inflight)
+			return
+		}
+	}
+	want := order(res.coll)
+	full := res.full
 	for p, calls := range res.passes {
 		if !sc.monitorPass(m, variant, want, p, calls) {
 			return
@@ -742,8 +1003,13 @@ func (sc scenario) monitor(m *lib.Monitor, variant string, res runResult) {
 func (sc scenario) monitorPass(m *lib.Monitor, variant string, want []string, pass int, calls []call) bool {
 	pre := "C15/" + sc.RPC + "/"
 	viol := func(sig, what string, input any, exp, obs string) bool {
-		if pass > 0 {
+		switch {
+		case pass > 0:
 			what += fmt.Sprintf(" (pass %d over the same, unmodified model)", pass+1)
+		case pass < 0:
+			what += " (chain made while an accepted write was parked in its expected check, before its commit: the contents are those before the write)"
+		case sc.Inflight != nil && sc.Inflight.Accept:
+			what += " (chain made after a write that was parked in its expected check during earlier List calls had completed: the contents are fixed again)"
 		}
 		m.Violate(sig, what, input, exp, obs)
 		return false
